@@ -37,7 +37,7 @@ EXPLANATION = (
     'pprint/repr. R4: remove_aliases_from_api strips aliases from fields and route types and '
     'clears the alias registries together.'
     " R5 (generator totality, stonelint.totality): python_client completes for every route in the property's domain -- IR attribute reads defined for every reaching class (e.g. the error type's fields), raises/asserts unreachable or recorded preconditions."
-    ' RC (call-condition drift, stonelint.conddrift.run_calls): for every call of a repository or imported-library function in the functions the property is anchored in, the path conditions of its occurrences are compared with reference/conditions.json by truth table; an assignment under which the function used to make the call and now completes without it is a violation (tests on memo tables, emptiness of the iterated collection and earlier refusals excepted; re-spelled conditions are not claimed).'
+    ' RC (call-condition drift, stonelint.effects.run_calls): for every call of a repository or imported-library function in the functions the property is anchored in, the path conditions of its occurrences are compared with reference/effects.json by truth table; an assignment under which the function used to make the call and now completes without it is a violation (tests on memo tables, emptiness of the iterated collection and earlier refusals excepted; re-spelled conditions are not claimed).'
     ' MK (memo-key rule, stonelint.memo): a memo table or done-set the reference tree does not have must be keyed by every access path the skipped code reads, injectively and type-aware.')
 ASSUMPTIONS = ['C02-R5 (required fields precede optional ones in all_fields) is checked under C02',
                'pprint.pformat of a str/int/float/bool/None is a valid Python literal of the value']
@@ -318,12 +318,12 @@ def run(pm, ctx):
                                               'stone.backends.python_helpers'),
                       False, 'python_client', TOTALITY_PRECONDITIONS, (10, 3, 0))
 
-    from ..conddrift import run_decisions
+    from ..effects import run_decisions
     from ..ownership import OWN
     run_decisions(pm, ctx, 'C14-RD', OWN['C14'])
     from .. import exprdrift
     exprdrift.run(pm, ctx, 'C14-RE', OWN['C14'])
-    from ..conddrift import run_calls
+    from ..effects import run_calls
     run_calls(pm, ctx, 'C14-RC', OWN['C14'])
     from .. import memo
     memo.run(pm, ctx, 'C14-MK', OWN['C14'])
